@@ -129,14 +129,22 @@ func (b *grpcBackend) newPeerProxy() cache.Proxy {
 	}
 	return p
 }
-func (b *grpcBackend) uploaders() int                  { b.mu.Lock(); defer b.mu.Unlock(); return b.nUp }
-func (b *grpcBackend) sizeAware(cache.EntryKind) bool  { return true }
-func (b *grpcBackend) openConns() int                  { return int(b.started.Load() - b.finished.Load()) }
-func (b *grpcBackend) connSlack() int                  { return 0 }
-func (b *grpcBackend) stalls() *stallTracker           { return b.st }
-func (b *grpcBackend) closeIdle()                      {}
-func (b *grpcBackend) reqCount(hash string) int        { b.mu.Lock(); defer b.mu.Unlock(); return b.counts[hash] }
-func (b *grpcBackend) setUploadPlan(h string, p *upPlan) { b.mu.Lock(); b.upPlans[h] = p; b.mu.Unlock() }
+func (b *grpcBackend) uploaders() int                 { b.mu.Lock(); defer b.mu.Unlock(); return b.nUp }
+func (b *grpcBackend) sizeAware(cache.EntryKind) bool { return true }
+func (b *grpcBackend) openConns() int                 { return int(b.started.Load() - b.finished.Load()) }
+func (b *grpcBackend) connSlack() int                 { return 0 }
+func (b *grpcBackend) stalls() *stallTracker          { return b.st }
+func (b *grpcBackend) closeIdle()                     {}
+func (b *grpcBackend) reqCount(hash string) int {
+	b.mu.Lock()
+	defer b.mu.Unlock()
+	return b.counts[hash]
+}
+func (b *grpcBackend) setUploadPlan(h string, p *upPlan) {
+	b.mu.Lock()
+	b.upPlans[h] = p
+	b.mu.Unlock()
+}
 
 func (b *grpcBackend) put(o *object) {
 	b.mu.Lock()
